@@ -81,6 +81,30 @@ class Gen:
     def indent(self, lines):
         return [IND + ln for ln in lines]
 
+    def exc_loop(self, depth, in_loop):
+        """Endless loop that is continued / left only through exception handlers, optionally inside
+        a `with` and behind an early return (value-less CDG cycles once the early return is excluded)."""
+        r = self.rng
+        handler = lambda: r.choice(["except:", "except:", "except ValueError:", "except (KeyError, IndexError):"])  # noqa: E731
+        body = ["try:", IND + f"g({self.atom()})", handler()]
+        if r.random() < 0.7:
+            body += [IND + f"if {self.cond(1)}:", IND + IND + self.simple()]
+        body += [IND + r.choice(["continue", "continue", "break", "pass"])]
+        if r.random() < 0.7:
+            body += [f"if {self.cond(1)}:"] + self.indent(self.block(depth + 2, True, n=1))
+        if r.random() < 0.7:
+            inner = ["try:", IND + f"g({self.atom()})"]
+            if r.random() < 0.3:
+                inner = ["try:", IND + "try:", IND + IND + f"g({self.atom()})", IND + handler(), IND + IND + "raise"]
+            body += inner + [handler(), IND + r.choice(["break", "break", "return a", "continue"])]
+        out = []
+        if r.random() < 0.6:
+            out += [f"if {self.cond(1)}:", IND + r.choice(["return 0", "return", "raise ValueError(a)"])]
+        out += [r.choice(["while True:", "while True:", f"while {self.var()}:"])] + self.indent(body)
+        if r.random() < 0.5:
+            out = [r.choice(["with f(a):", "with f(a) as h:"])] + self.indent(out)
+        return out
+
     def stmt(self, depth, in_loop):
         r = self.rng
         self.budget -= 1
@@ -89,6 +113,8 @@ class Gen:
             c = c * 0.3
         if c < 0.22:
             return [self.simple()]
+        if self.allow_try and r.random() < 0.08:
+            return self.exc_loop(depth, in_loop)
         if c < 0.27:
             ch = ["return " + self.atom(), "return", "raise ValueError(a)"]
             if in_loop:
